@@ -6,7 +6,7 @@ cd /verif
 bad=0
 for d in seeded/*${1:-}*/; do
   n=$(basename $d); id=$(python3 -c "import json;print(json.load(open('$d/meta.json'))['property'])")
-  git -C /repo apply $d/patch.diff || { echo "$n: patch does not apply"; bad=1; continue; }
+  git -C /repo apply /verif/${d}patch.diff || { echo "$n: patch does not apply"; bad=1; continue; }
   s=$(date +%s); out=$(./check $id 2>&1); rc=$?; e=$(date +%s)
   git -C /repo checkout -- .
   v=$(echo "$out" | grep -c "^VIOLATION")
